@@ -1,5 +1,7 @@
 """C18 — inconsistent or invalid array descriptions are rejected at open."""
 import ast
+from ..pathcond import inline, canon, find_defs, runs_under, reach_under, outcome_under
+from ._trunc import folder
 
 from ..rules import GateAnalysis, must_precede
 from ..cfg import cfg_of, always_raises
@@ -74,15 +76,18 @@ def _membership_operand(test):
 
 
 def v_dict(test, func, raising_when_true):
+    test = inline(func, test)
     return 'isinstance' in norm(test) and 'dict' in norm(test)
 
 
 def v_shape(test, func, rwt):
+    test = inline(func, test)
     t = norm(test)
     return 'isinstance' in t and 'int' in t and 'shape' in t
 
 
 def v_order(test, func, rwt):
+    test = inline(func, test)
     if 'arrayorder' not in norm(test):
         return False
     s, notin = _lit_set(test)
@@ -90,6 +95,7 @@ def v_order(test, func, rwt):
 
 
 def v_numtype(test, func, rwt):
+    test = inline(func, test)
     t = norm(test)
     if 'numtype' not in names_in(test) and "['numtype']" not in t:
         return False
@@ -102,6 +108,7 @@ def v_numtype(test, func, rwt):
 
 
 def v_byteorder(test, func, rwt):
+    test = inline(func, test)
     if 'byteorder' not in norm(test):
         return False
     s, notin = _lit_set(test)
@@ -262,13 +269,16 @@ def d5_open(ctx):
     ctx.decide(ok, 'R-OWN', 'D5', f, None, 'open-constructs-via-classes',
                'darr.open returns only Array(...) / RaggedArray(...) (validating constructors)',
                detail='darr.open returns something not built by the validating constructors')
-    # unknown kinds: the if/elif chain ends in raise ValueError
-    top = [n for n in f.node.body if isinstance(n, ast.If)]
+    # unknown kinds: with the stored kind bound to a value that is neither class name, no return is reached and
+    # ValueError is raised (path conditions folded; independent of the layout of the dispatch chain)
+    kinds = find_defs(f, lambda v: any(isinstance(x, ast.Subscript) and isinstance(x.slice, ast.Constant) and
+                                       x.slice.value == 'darrobject' for x in ast.walk(v)))
     ok = False
-    if top:
-        st = top[-1]
-        while st.orelse and len(st.orelse) == 1 and isinstance(st.orelse[0], ast.If):
-            st = st.orelse[0]
-        ok = always_raises(st.orelse) and 'ValueError' in raised_names(st.orelse)
-    ctx.decide(ok, 'R-DOM', 'D5', f, top[-1] if top else None, 'open-rejects-unknown-kind',
-               'darr.open raises ValueError for an unknown darrobject', detail='dispatch chain has no raising else')
+    if kinds:
+        ft = folder({kinds[0][0]: '<some other kind>'}, f)
+        normal, raised = outcome_under(f, ft)
+        reach = reach_under(f, ft)
+        g = cfg_of(f)
+        ok = normal is False and 'ValueError' in raised and not any(g.node_for(r) in reach for r in rets)
+    ctx.decide(ok, 'R-DOM', 'D5', f, None, 'open-rejects-unknown-kind',
+               'darr.open raises ValueError for an unknown darrobject', detail='an unknown kind does not end in raise ValueError')
